@@ -230,6 +230,25 @@ func (ft *FT) callWritesSeen(c *ssa.CallCommon, seen map[*ssa.Function]bool) ([]
 	if pc := ft.paramContract(c.Value); pc != nil && pc.HasMod && len(pc.Modifies) == 0 {
 		return []string{"$next"}, false
 	}
+	if c.IsInvoke() {
+		if n, ok := types.Unalias(c.Value.Type()).(*types.Named); ok && n.Obj().Pkg() != nil && isStdPath(n.Obj().Pkg().Path()) {
+			return []string{"$next"}, false
+		}
+		if isErrorType(c.Value.Type()) {
+			return []string{"$next"}, false
+		}
+	}
+	if callee == nil && !c.IsInvoke() && ft.con != nil && ft.con.HasDynMod {
+		ctx := ft.specCtx(ft.entry, ft.entry)
+		targets, all, err := ft.modTargets(ctx, ft.con.DynMod)
+		if err == nil && !all {
+			ks := []string{"$next"}
+			for _, t := range targets {
+				ks = append(ks, t.key)
+			}
+			return ks, false
+		}
+	}
 	return nil, true
 }
 
@@ -277,6 +296,40 @@ func (ft *FT) call(st *State, guard Term, c *ssa.CallCommon, preArgs []Term, ins
 	name, callee, closure := ft.callName(c)
 	if c.IsInvoke() {
 		ft.safety("nil", pos, guard, not(eq(app("dyn", args[0]), "0")))
+	}
+	if ft.con != nil && ft.con.CallPre != nil {
+		if cls := ft.con.CallPre[name]; len(cls) > 0 {
+			ctx := ft.specCtx(st, ft.entry)
+			if ft.curBlk != nil {
+				ctx.local = ft.localResolver(ft.curBlk, false, nil, nil, ctx.local)
+			}
+			for i, a := range args {
+				var at types.Type
+				if c.IsInvoke() || (sig.Recv() != nil) {
+					if i == 0 {
+						at = c.Value.Type()
+						if sig.Recv() != nil && !c.IsInvoke() {
+							at = sig.Recv().Type()
+						}
+					} else {
+						at = sig.Params().At(i - 1).Type()
+					}
+				} else if i < sig.Params().Len() {
+					at = sig.Params().At(i).Type()
+				}
+				if at != nil {
+					ctx.vars[fmt.Sprintf("arg%d", i)] = SpecVal{T: a, Typ: at, Sort: ft.d.sortOf(at)}
+				}
+			}
+			for _, cl := range cls {
+				t, err := ctx.boolExpr(cl.Expr)
+				if err != nil {
+					ft.errf("callpre %s %q: %v", name, cl.Text, err)
+					continue
+				}
+				ft.oblige("pre@call", pos, fmt.Sprintf("%s: %s", name, cl.Text), guard, t, true)
+			}
+		}
 	}
 	if m := ft.eng.models[name]; m != nil {
 		return m.apply(ft, st, guard, c, args, pos)
@@ -368,6 +421,31 @@ func (ft *FT) call(st *State, guard Term, c *ssa.CallCommon, preArgs []Term, ins
 				}
 			}
 			ft.assume("true", app("<=", nx, ft.get(st, "$next")))
+			return results(st)
+		}
+	}
+	if c.IsInvoke() {
+		if n, ok := types.Unalias(c.Value.Type()).(*types.Named); ok && n.Obj().Pkg() != nil && isStdPath(n.Obj().Pkg().Path()) {
+			ft.note("method call on library interface treated as not modifying contract-visible memory: " + name)
+			nx := ft.get(st, "$next")
+			ft.assume("true", app("<=", nx, ft.freshVersion(st, "$next")))
+			return results(st)
+		}
+		if isErrorType(c.Value.Type()) {
+			nx := ft.get(st, "$next")
+			ft.assume("true", app("<=", nx, ft.freshVersion(st, "$next")))
+			return results(st)
+		}
+	}
+	if callee == nil && !c.IsInvoke() && ft.con != nil && ft.con.HasDynMod {
+		ctx := ft.specCtx(st, ft.entry)
+		targets, all, err := ft.modTargets(ctx, ft.con.DynMod)
+		if err != nil {
+			ft.errf("dyncall: %v", err)
+		}
+		if !all {
+			ft.note("dynamic calls assumed to modify only the declared dyncall frame")
+			ft.applyFrame(st, targets, map[string]bool{})
 			return results(st)
 		}
 	}
@@ -1015,4 +1093,12 @@ func (ft *FT) allocBound(pos token.Pos, guard Term, n Term, st *State) {
 		return
 	}
 	ft.oblige("alloc-bounded", pos, "", guard, app("<=", n, v.T), true)
+}
+
+func isStdPath(p string) bool {
+	first := p
+	if i := strings.Index(p, "/"); i >= 0 {
+		first = p[:i]
+	}
+	return !strings.Contains(first, ".")
 }
